@@ -499,7 +499,7 @@ decls! {
 
     #[nutype(validate(predicate = |b| *b), derive(Debug, Clone, Serialize, Deserialize))]
     struct MustBeTrue(bool);
-    family = "other"; validated = true; core = false;
+    family = "other"; validated = true; core = true;
     gen = |r| r.chance(1, 2);
     corpus = vec![true, false];
 
